@@ -239,25 +239,57 @@ func finalFormats(fail failFn, in *input) int {
 	return n
 }
 
-func finalVirtual(fail failFn, in *input) int { return finalBackend(fail, in, runVirtual) }
-func finalNaive(fail failFn, in *input) int   { return finalBackend(fail, in, runNaive) }
+func finalVirtual(fail failFn, in *input) int { return finalBackend(fail, in, runVirtual, true) }
+func finalNaive(fail failFn, in *input) int   { return finalBackend(fail, in, runNaive, false) }
 
 // finalBackend: Tree-only and Tree-and-Directory format, without and with
-// decoys, through a real BuildDirectory implementation.
-func finalBackend(fail failFn, in *input, run func(failFn, *input)) int {
+// decoys, through a real BuildDirectory implementation. Then the fault
+// letters of that implementation's two-pass UploadFile (digest pass, transfer
+// pass), for the Tree-only format without decoys: naive - one run per
+// non-empty file that the fault-free run opened, in which that file is
+// rewritten in place (same length) right after the digest pass has read its
+// last byte; virtual - one run in which every produced file was digested
+// with other bytes before it got its final contents (a remembered digest
+// must not survive the write).
+func finalBackend(fail failFn, in *input, run func(failFn, *input) *world, virtual bool) int {
 	failed := false
 	f := func(fp, format string, args ...any) { failed = true; fail(fp, format, args...) }
 	n := 0
+	var first *world
 	for _, format := range []int32{0, 2} {
 		for _, decoys := range []bool{false, true} {
 			v := *in
 			v.format, v.decoys = format, decoys
-			run(f, &v)
+			w := run(f, &v)
+			if first == nil {
+				first = w
+			}
 			n++
 			if failed {
 				return n
 			}
 		}
+	}
+	if first == nil {
+		return n
+	}
+	for _, loc := range dedupSorted(first.opened) {
+		v := *in
+		v.fault = fault{kind: faultRewrite, arg: loc}
+		w := run(f, &v)
+		n++
+		if failed {
+			return n
+		}
+		if !w.hit {
+			panic("harness: rewrite fault at " + loc + " did not fire; input " + v.String())
+		}
+	}
+	if virtual {
+		v := *in
+		v.fault = fault{kind: faultStaleDigest}
+		run(f, &v)
+		n++
 	}
 	return n
 }
@@ -506,6 +538,19 @@ func TestMC(t *testing.T) {
 		depth: map[string]int{"quick": 3, "thorough": 4},
 		final: finalNaive,
 	}))
+
+	// 8. The executor's own control flow: the same inputs through the real
+	// localBuildExecutor.Execute() (naive and virtual build directory, fake
+	// runner that produces the outputs and then succeeds, exits non-zero,
+	// times out or loses its connection).
+	for _, wd := range []string{"", "a"} {
+		seqs = append(seqs, pathSeq(&pcfg{
+			name: "executor-wd-" + sanitize(wd), wd: wd, paths: []string{"x", "b/x", "../x", "."}, maxPaths: 2,
+			menu:  []thing{tFile, tXFile, tSymlink, tFifo, tDir},
+			depth: map[string]int{"quick": 4, "thorough": 4},
+			final: finalExecutor,
+		}))
+	}
 
 	mc.Main(t, nil, seqs)
 }
